@@ -41,9 +41,9 @@ PROPS["C08"] = {
 
 # C07 names tick and process as separate operations: histories in which expiries wait for their processing step (several events
 # elapsed, deletes in between) are explored with the C08 harness, whose task-level alphabet has service and process as events of their own
-PROPS["C07"]["jobs"]["quick"] += [C08(0, depth=40), C08(1, depth=40), C08(2, depth=6, deadline=60)]
-PROPS["C07"]["jobs"]["thorough"] += [C08(0, depth=40), C08(1, depth=40), C08(3, depth=40), C08(4, depth=40), C08(2, depth=10, deadline=900, max_states=40000000)]
-PROPS["C07"]["text"] += " Deferred processing - ticks served without a processing step, so that several events wait in the elapsed list while actions are created and deleted - is covered by the C08 exploration (task-level events create / delete / service / process on pools 1..3, lockstep expiry accounting and pool conservation), which is part of this check as well."
+PROPS["C07"]["jobs"]["quick"] += [C08(0, depth=40), C08(1, depth=40), C08(2, depth=6, deadline=60)] + [J("c07ins", c, deadline=100) for c in range(11)]
+PROPS["C07"]["jobs"]["thorough"] += [C08(0, depth=40), C08(1, depth=40), C08(3, depth=40), C08(4, depth=40), C08(2, depth=10, deadline=900, max_states=40000000)] + [J("c07ins", c, deadline=900) for c in range(11)]
+PROPS["C07"]["text"] += " Deferred processing - ticks served without a processing step, so that several events wait in the elapsed list while actions are created and deleted - is covered by the C08 exploration (task-level events create / delete / service / process on pools 1..3, lockstep expiry accounting and pool conservation), which is part of this check as well. Insertion orders and magnitudes (c07ins): every operation sequence of length <= 6 (8) over {one-shot with delay 1..6, three cyclic actions, tick, delete of the k-th created action} on a pool of six - a new action is queued before, between any two, equal to any and behind up to five pending events, which three distinct delays cannot produce - and sequences of length <= 5 (6) over delays {1, 3, 4464, 65535, 65536, 65537, 70000, 131075} (16-bit seams of the remaining-delay arithmetic; time advanced by letting the hardware counter run); after every prefix the remaining schedule is run to completion on a copy and each tick's callbacks must be exactly the actions due on it."
 
 SC3 = ["CO_VERIF_SDO_BUF_SEG=3"]
 REAL1K = ["SDO_DS2=1000"]
@@ -122,11 +122,11 @@ PROPS["C09"] = {
 PROPS["C10"] = {
     "level": "model_checking",
     "technique": "explicit-state BFS over ticks, 1017h writes (SDO and API), NMT commands and every other timer user as interference, against a reference heartbeat schedule",
-    "text": "Node with heartbeat producer, one heartbeat consumer, SYNC (producer switchable), an event-driven TPDO with inhibit and event time, and an application timer. 30 events: tick; 1017h := {0,1,2,3} periods by SDO and by CODictWrWord; NMT start/stop/pre-op/reset communication/reset node; SDO writes to 1800h:1/:2/:3/:5, 1005h, 1006h, 1016h:1; COTPdoTrigPdo; a changed asynchronous mapped object; application COTmrCreate/COTmrDelete; heartbeat of the monitored node (its timeouts interleave). After every step the heartbeat frames (count, DLC, state byte) must equal the reference schedule: exactly one frame every period counted from the last accepted write or reset, none otherwise. 1 kHz and 100 Hz timers, node ids 1 and 10; a fifth configuration starts OPERATIONAL with the producer off and a TPDO event time of one tick, so that histories of six events reach a timer id wandering from the TPDO to the producer (event expiry outside OPERATIONAL, producer started, TPDO re-initialised).",
+    "text": "Node with heartbeat producer, one heartbeat consumer, SYNC (producer switchable), an event-driven TPDO with inhibit and event time, and an application timer. 30 events: tick; 1017h := {0,1,2,3} periods by SDO and by CODictWrWord; NMT start/stop/pre-op/reset communication/reset node; SDO writes to 1800h:1/:2/:3/:5, 1005h, 1006h, 1016h:1; COTPdoTrigPdo; a changed asynchronous mapped object; application COTmrCreate/COTmrDelete; heartbeat of the monitored node (its timeouts interleave). After every step the heartbeat frames (count, DLC, state byte) must equal the reference schedule: exactly one frame every period counted from the last accepted write or reset, none otherwise. 1 kHz and 100 Hz timers, node ids 1 and 10; a fifth configuration starts OPERATIONAL with the producer off and a TPDO event time of one tick, so that histories of six events reach a timer id wandering from the TPDO to the producer (event expiry outside OPERATIONAL, producer started, TPDO re-initialised). Long periods on fast timers (c10long): heartbeat times {3000, 6554, 10000, 32768, 65535} ms at {1, 2, 10, 20} kHz - up to 1.3 million ticks per period - alone and with another timer user armed, elapsing or deleted while the producer has more than 65535 ticks to go (TPDO event timer, short application timer, longer application timer deleted, SYNC producer); the first two heartbeats must come exactly one and two periods after the write.",
     "note": "depth-bounded (no fixpoint: the product with the other timer users is large); other frames of a step are ignored here",
     "jobs": {
-        "quick": [J("c10", 0, depth=7, deadline=100), J("c10", 1, depth=6, deadline=100), J("c10", 2, depth=6, deadline=100), J("c10", 3, depth=6, deadline=100), J("c10", 4, depth=6, deadline=100)],
-        "thorough": [J("c10", c, depth=10, deadline=1200, max_states=30000000) for c in range(5)],
+        "quick": [J("c10", 0, depth=7, deadline=100), J("c10", 1, depth=6, deadline=100), J("c10", 2, depth=6, deadline=100), J("c10", 3, depth=6, deadline=100), J("c10", 4, depth=6, deadline=100), J("c10long")],
+        "thorough": [J("c10", c, depth=10, deadline=1200, max_states=30000000) for c in range(5)] + [J("c10long")],
     },
 }
 
@@ -134,14 +134,14 @@ SLOW = {"slow": 1}      # 100 Hz timer, all times of the alphabet in units of 10
 PROPS["C11"] = {
     "level": "model_checking",
     "technique": "explicit-state BFS over heartbeat frames, 1016h writes, counter/state queries and ticks against a reference monitor per consumer entry",
-    "text": "Consumer tables of 1..4 entries (6 initial configurations). Events: heartbeat frames of two monitored nodes and one unmonitored node with states {0,4,5,127}; SDO write of {node X|Y, time 0|2|3} and {0,0} to every entry followed by a read-back; CONmtGetHbEvents and CONmtLastHbState for the three nodes; tick; 765 ticks of silence (counter saturation); NMT stop/start/reset communication. After every step the CONmtHbConsEvent / CONmtHbConsChange callbacks (multiset per node), the return values of the queries, the SDO verdict (0604 0043h and no change for a node that is already monitored, acceptance otherwise) and the read-back value are compared with the reference; entries not addressed by a write must keep their monitoring. Two of the tables run once more on a 100 Hz timer with every time given in units of 10 ms.",
+    "text": "Consumer tables of 1..4 entries (6 initial configurations). Events: heartbeat frames of two monitored nodes and one unmonitored node with states {0,4,5,127}; SDO write of {node X|Y, time 0|2|3} and {0,0} to every entry followed by a read-back; CONmtGetHbEvents and CONmtLastHbState for the three nodes; tick; 765 ticks of silence (counter saturation); NMT stop/start/reset communication. After every step the CONmtHbConsEvent / CONmtHbConsChange callbacks (multiset per node), the return values of the queries, the SDO verdict (0604 0043h and no change for a node that is already monitored, acceptance otherwise) and the read-back value are compared with the reference; entries not addressed by a write must keep their monitoring. Two of the tables run once more on a 100 Hz timer with every time given in units of 10 ms. A seventh table has four entries with four distinct times (2, 3, 4, 6 ticks) and an alphabet reduced to the four heartbeats and the tick, explored to depth 9 (13): four consumer timers pending at once, a re-armed one queued before, between and behind the others.",
     "note": "'already monitored' is read literally (any entry, including the written one, configured with that node and a non-zero time); depth-bounded",
     "jobs": {
         "quick": [J("c11", 0, depth=8, deadline=100), J("c11", 1, depth=6, deadline=100), J("c11", 2, depth=6, deadline=100), J("c11", 3, depth=5, deadline=100), J("c11", 4, depth=5, deadline=100), J("c11", 5, depth=5, deadline=100)] +
-                 [J("c11", 1, depth=6, deadline=100, opts=SLOW), J("c11", 5, depth=5, deadline=100, opts=SLOW)],
+                 [J("c11", 1, depth=6, deadline=100, opts=SLOW), J("c11", 5, depth=5, deadline=100, opts=SLOW), J("c11", 6, depth=9, deadline=100, allow_dead=True)],
         "thorough": [J("c11", 0, depth=14, deadline=1200), J("c11", 1, depth=9, deadline=1200, max_states=30000000), J("c11", 2, depth=9, deadline=1200, max_states=30000000),
                      J("c11", 3, depth=8, deadline=1200, max_states=30000000), J("c11", 4, depth=8, deadline=1200, max_states=30000000), J("c11", 5, depth=7, deadline=1200, max_states=30000000)] +
-                    [J("c11", 1, depth=9, deadline=1200, max_states=30000000, opts=SLOW), J("c11", 5, depth=7, deadline=1200, max_states=30000000, opts=SLOW)],
+                    [J("c11", 1, depth=9, deadline=1200, max_states=30000000, opts=SLOW), J("c11", 5, depth=7, deadline=1200, max_states=30000000, opts=SLOW), J("c11", 6, depth=13, deadline=1200, max_states=30000000, allow_dead=True)],
     },
 }
 
